@@ -116,3 +116,15 @@ CHECKS["C01"] = {
         enum_job("exhaustive", "./verifh/c01", "TestExhaustiveShort", timeout={Q: 600, T: 3000}),
     ],
 }
+
+CHECKS["C04"] = {
+    "rule": ("rapid-generated single-writer histories (1-25 successful and failing Set/Add/Update/Delete with any options, same-value writes, add-remove-re-add chains, with and without WithWriteTime) "
+             "on a Value or Collection with initial contents empty/one/many, observed by 1-3 backpressured subscriptions with drawn {updates-only, read mask, WithNoDuplicates}; after a sentinel write "
+             "each received log must equal the model's edit script exactly: count, order, id, kind, new value, old value, seed flags, change time (exact with write time, else inside the fake clock's "
+             "call interval). non-trivial = history with a remove followed by a re-add, a failing write between successful ones, or an equivalence configured; distinct by (subscriptions, op/outcome sequence)"),
+    "assumptions": ["one writer at a time; consumers always receive", "with an equivalence the read masks are top-level non-message paths (so the sentinel is never suppressed)"],
+    "jobs": [
+        rapid_job("value", "./verifh/c04", "TestValueStream", 3000, 20000),
+        rapid_job("collection", "./verifh/c04", "TestCollectionStream", 3000, 20000),
+    ],
+}
